@@ -212,6 +212,18 @@ class {P}Color(enum.Enum):
     BLUE = 3
 
 
+class {P}Symbol:
+    # an opaque handle with identity equality (no __eq__): two handles are equal only if they are one object
+    def __init__(self, name):
+        self.name = name
+
+    def __str__(self):
+        return f"sym:{self.name}"
+
+
+{P}SYMBOLS = [{P}Symbol(f"s{i}") for i in range(4)]
+
+
 class _{P}Tag:
     # a plain marker mixin (no data, not a node)
     __slots__ = ()
@@ -355,6 +367,10 @@ def core_specs(P: str = "U", variant: int = 0) -> list[CS]:
                 FS("extras", "child", f"tuple[{E}, ...]", "tuple", (E,), compare=False, default="()"),
             ),
         ),
+        # a non-comparable property holding an opaque object (generators include this class only on request)
+        CS(f"{P}Handle", (E,), F(FS("name", "prop", "str", "str", default='""'), FS("symbol", "prop", "Any", "symbol", compare=False, default="None"), FS("kid", "child", f"{E} | None", "opt", (E,), default="None"))),
+        # a bytes-valued property (valid and invalid UTF-8)
+        CS(f"{P}Blob", (E,), F(FS("data", "prop", "bytes", "bytes", default='b""'), FS("kid", "child", f"{E} | None", "opt", (E,), default="None"))),
         # same child field names, other declaration order and other kinds
         CS(f"{P}SwapA", (E,), F(FS("first", "child", f"{E} | None", "opt", (E,), default="None"), FS("second", "child", f"tuple[{E}, ...]", "tuple", (E,), default="()"))),
         CS(f"{P}SwapB", (E,), F(FS("second", "child", f"{E} | None", "opt", (E,), default="None"), FS("first", "child", f"tuple[{E}, ...]", "tuple", (E,), default="()"))),
